@@ -418,7 +418,10 @@ class DecoderLayout:
                 else:
                     head_spans[e.head] = ("sized", n)
             elif k == "loop":
-                name = self.array_name(prev_binds, nxt_binds)
+                if getattr(e, "result", None) is not None and nxt_binds:
+                    name = nxt_binds[0].name        # `let x = (0..n).map(..).collect()`: bound after the loop
+                else:
+                    name = self.array_name(prev_binds, nxt_binds)
                 shape = self.classify_count(e.count, name, getattr(e, "pre_rem", None))
                 it = {"k": "array", "name": name, "elem": self.elem_of(list(walk(e.body))), "shape": shape,
                       "pad": pending_pad, "line": e.line}
@@ -549,12 +552,19 @@ class DecoderLayout:
             if it["k"] != "chunk":
                 continue
             bits = [("ignored",)] * (it["n"] * 8)
+            ckey = it["sym"].key() if it.get("sym") is not None else None
+            def is_alias(u):
+                return u["kind"] == "var" and _strip_cast(u["e"]).key() == ckey and u["name"] not in self.result_fields \
+                    and self.roles.get(u["e"].key()) is None and self.roles.get(_strip_cast(u["e"]).key()) is None
+            others = [u for u in it["uses"] if not is_alias(u)]
             for u in it["uses"]:
                 i = u["i"]
                 if i >= len(bits):
                     continue
                 e = u["e"]
                 kind = u["kind"]
+                if others and is_alias(u):
+                    continue        # `let chunk = read [as uN]`: an alias of the whole group, not a use of its bits
                 role = self.roles.get(e.key()) or self.roles.get(_strip_cast(e).key())
                 if kind == "fixed":
                     v = u.get("value")
@@ -567,8 +577,6 @@ class DecoderLayout:
                     d = ("f", u["name"], u["j"])
                 elif u["name"] in self.result_fields:
                     d = ("f", u["name"], u["j"])
-                elif e.key() in self.chunks and u["name"] not in self.result_fields:
-                    continue        # `let chunk = read` alias: not a use of the bits
                 else:
                     d = ("var", u["name"], u["j"])
                 # a later, more specific use wins over a plain variable binding
